@@ -9,9 +9,14 @@
 // to step j (--number-of-steps j). Enumerated stop/restart histories:
 //   * every single stop k in 1..5, continued to every j in k+1..6
 //     (15 restarted legs per configuration);
-//   * every subset of {1..5} as a chain of stop points (32 chains) on the chain
-//     configurations (quick: two, one of each inverse-cell-size class;
-//     thorough: all).
+//   * every subset of {1..5} as a chain of stop points (32 chains, up to 5
+//     restarts in a row, odd and even) on the chain configurations (quick: ten
+//     slots over components, layouts and inverse-cell-size classes; thorough:
+//     all).
+// Layouts: 1x1x1, 2x1x1 (periodic x), 2x2x1, 1x2x3 (periodic z). Components:
+// mask, turbulence forcing, supernova source with feedback, random source list
+// (without / with its log file and subgrid copies), external gravity; all of
+// them with parameters that differ from each other and from the defaults.
 // Oracle: the dump written after step j by a restarted leg equals D[j] byte
 // for byte except
 //   (1) bytes [0,192): the four Timer objects (12 timeval) that lead the dump,
@@ -21,7 +26,9 @@
 // and every snapshot a restarted leg writes has the same content (all groups,
 // attributes, datasets; raw data bytes) as the snapshot with the same index of
 // the uninterrupted run, except the attribute RuntimePars@Creation time (HDF5
-// object header time stamps are not part of the canonical content).
+// object header time stamps are not part of the canonical content); the log
+// file of the source list after a restarted leg equals the one after the
+// uninterrupted run.
 #include "c09_util.hpp"
 
 #include "ParameterFile.hpp"
@@ -39,6 +46,8 @@ static const size_t TIMER_BYTES = 192; // 4 Timer x 3 timeval x 16 bytes
 static const double PARSEC = 3.0856775814913673e16;
 
 static std::string g_exe;
+static RunServer g_server; // helper processes that start the runs and read the snapshots
+static const char *SOURCE_LOG = "UniformRandom_source_positions.txt";
 static std::string g_base;
 static bool g_verbose = false;
 static bool g_keep = false; // C09_KEEP=1: leave the run directories in place
@@ -46,7 +55,17 @@ static bool g_keep = false; // C09_KEEP=1: leave the run directories in place
 // ---------------------------------------------------------------------------
 // configurations
 // ---------------------------------------------------------------------------
-enum { COMP_MASK = 1, COMP_TURB = 2, COMP_SN = 4, COMP_URAND = 8 };
+enum {
+  COMP_MASK = 1,    // RescaledICHydroMask
+  COMP_TURB = 2,    // AlveliusTurbulenceForcing
+  COMP_SN = 4,      // SingleSupernova source + stellar feedback
+  COMP_URAND = 8,   // UniformRandom source list
+  COMP_GRAV = 16,   // external gravity of a point mass
+  COMP_COPIES = 32, // source copy level 2: subgrid copies in the creator
+  COMP_SRCLOG = 64  // the UniformRandom source list keeps its log file
+};
+// seed of the photon random stream: not the default (42)
+static const int RUN_SEED = 4711;
 
 struct Geometry {
   std::string name;
@@ -59,6 +78,7 @@ struct Geometry {
 
 struct Layout {
   int nsub[3];
+  int periodic_axis; // -1: no periodic axis
   std::string name() const { return fmt("%dx%dx%d", nsub[0], nsub[1], nsub[2]); }
 };
 
@@ -76,6 +96,10 @@ struct Config {
   unsigned assoc_pairs = 0;
   std::string assoc_detail;
   bool chains = false;
+  // single stops continued to every later step (true) or to the next and the
+  // last step only (false; the step before the last is compared through the
+  // backup dump, the steps in between through the snapshots)
+  bool every_target = true;
   // set from the 'none' configuration of the same group
   double dt1 = 0.;       // first time step
   double t_end_step2 = 0.;
@@ -94,6 +118,12 @@ struct Config {
       add("supernova-source");
     if (comps & COMP_URAND)
       add("random-source-list");
+    if (comps & COMP_SRCLOG)
+      add("source-log");
+    if (comps & COMP_GRAV)
+      add("external-gravity");
+    if (comps & COMP_COPIES)
+      add("subgrid-copies");
     return s;
   }
   std::string inv_class() const {
@@ -180,32 +210,62 @@ static std::string blocks_text(const Geometry &g) {
   return t;
 }
 
+// Parameters of the optional components. Rule: no two parameters that play
+// different roles have the same value, and none has the default value of the
+// code (defaults in comments), so that a field that is swapped with another
+// one, or lost and replaced by its default in a write/read pair, changes the
+// continuation.
+static const double MASK_CENTRE[3] = {0.55, 0.45, 0.6}; // fractions of the box sides (default centre 0)
+static const double MASK_RADIUS = 0.3;                  // of the shortest side (default 1 m)
+static const double MASK_SCALE_DENSITY = 0.3;           // default 0.01
+static const double MASK_SCALE_VELOCITY = 0.8;          // default 1
+static const double MASK_SCALE_PRESSURE = 0.6;          // default 0.01
+static const double MASK_DELTA_T = 0.37;                // of the total time (default 5000 yr)
+static const double TURB_KMIN = 0.9, TURB_KMAX = 2., TURB_KPEAK = 1.6; // defaults 1, 3, 2.5 (kmax: an integer)
+static const double TURB_CONCENTRATION = 0.3;           // default 0.2
+static const double TURB_START = 3.3;                   // forcing steps the generator is forwarded (default 0)
+static const int TURB_SEED = 17, URAND_SEED = 77;       // defaults 42
+static const double URAND_BOX_ANCHOR[3] = {0.1, 0.2, 0.15}, URAND_BOX_SIDES[3] = {0.8, 0.6, 0.7};
+// in units of the first time step: sources live at most 8 steps, the list is
+// updated every 1.5 steps and is evolved over one update by its constructor
+// (defaults 1 Myr, 0.1 Myr, 0), so the dumped list has seen sources die and be
+// replaced (log with removal lines, source indices that are not 0..4)
+static const double URAND_LIFETIME = 8., URAND_INTERVAL = 1.5, URAND_START = 1.6;
+static const double SOURCE_POS[3] = {0.6, 0.35, 0.7};
+static const double GRAV_POS[3] = {0.43, 0.58, 0.27};
+static const int COPY_LEVEL = 2;                        // default 4; 0 without COMP_COPIES
+
 static std::string param_text(const Config &c) {
   const Geometry &g = c.geo;
   double a[3];
   anchor_of(g, a);
-  const bool px = (c.lay.nsub[0] == 2 && c.lay.nsub[1] == 1);
+  const int pa = c.lay.periodic_axis;
+  const char *per[3], *bnd[3];
+  for (int i = 0; i < 3; ++i) {
+    per[i] = (pa == i) ? "true" : "false";
+    bnd[i] = (pa == i) ? "periodic" : "reflective";
+  }
   const double T = total_time(g);
   std::string t = FIXED_RATES;
   t += "DensityFunction:\n  type: BlockSyntax\n  filename: blocks.yml\n";
   t += fmt("DensityGrid:\n  number of cells: [%d, %d, %d]\n", g.ncell[0], g.ncell[1], g.ncell[2]);
-  t += fmt("DensitySubGridCreator:\n  number of subgrids: [%d, %d, %d]\n  periodicity: [%s, false, false]\n",
-           c.lay.nsub[0], c.lay.nsub[1], c.lay.nsub[2], px ? "true" : "false");
+  t += fmt("DensitySubGridCreator:\n  number of subgrids: [%d, %d, %d]\n  periodicity: [%s, %s, %s]\n",
+           c.lay.nsub[0], c.lay.nsub[1], c.lay.nsub[2], per[0], per[1], per[2]);
   t += "DensityGridWriter:\n  type: Gadget\n  padding: 3\n  prefix: snap_\n";
   t += "Hydro:\n  polytropic index: 1.6666667\n";
   t += fmt("HydroBoundaryManager:\n  boundary x high: %s\n  boundary x low: %s\n"
-           "  boundary y high: reflective\n  boundary y low: reflective\n"
-           "  boundary z high: reflective\n  boundary z low: reflective\n",
-           px ? "periodic" : "reflective", px ? "periodic" : "reflective");
-  t += "SimulationBox:\n  anchor: " + vec3(a, g.unit) + fmt("\n  periodicity: [%s, false, false]\n", px ? "true" : "false") +
-       "  sides: " + vec3(g.side, g.unit) + "\n";
+           "  boundary y high: %s\n  boundary y low: %s\n"
+           "  boundary z high: %s\n  boundary z low: %s\n",
+           bnd[0], bnd[0], bnd[1], bnd[1], bnd[2], bnd[2]);
+  t += "SimulationBox:\n  anchor: " + vec3(a, g.unit) +
+       fmt("\n  periodicity: [%s, %s, %s]\n", per[0], per[1], per[2]) + "  sides: " + vec3(g.side, g.unit) + "\n";
   t += "TemperatureCalculator:\n  do temperature calculation: false\n";
   t += "PhotonSourceSpectrum:\n  type: Monochromatic\n  frequency: 3.28847e+15 Hz\n";
   t += "RestartManager:\n  output interval: 0. s\n";
   // source distribution (a discrete source distribution is mandatory in this mode)
   double pos[3];
   for (int i = 0; i < 3; ++i)
-    pos[i] = a[i] + 0.6 * g.side[i];
+    pos[i] = a[i] + SOURCE_POS[i] * g.side[i];
   if (c.comps & COMP_SN) {
     // explodes after step 3; energy ~ 20 x thermal energy of one cell
     const double vcell = (g.side_m(0) / g.ncell[0]) * (g.side_m(1) / g.ncell[1]) * (g.side_m(2) / g.ncell[2]);
@@ -215,19 +275,26 @@ static std::string param_text(const Config &c) {
          fmt("\n  lifetime: %.17g s\n  luminosity: 1.e+49 s^-1\n  energy: %.17g J\n", lifetime,
              20. * ecell);
   } else if (c.comps & COMP_URAND) {
+    double ua[3], us[3];
+    for (int i = 0; i < 3; ++i) {
+      ua[i] = a[i] + URAND_BOX_ANCHOR[i] * g.side[i];
+      us[i] = URAND_BOX_SIDES[i] * g.side[i];
+    }
     t += "PhotonSourceDistribution:\n  type: UniformRandom\n  number of sources: 5\n"
          "  source luminosity: 1.e+48 s^-1\n  box anchor: " +
-         vec3(a, g.unit) + "\n  box sides: " + vec3(g.side, g.unit) +
-         fmt("\n  random seed: 77\n  source lifetime: %.17g s\n  update interval: %.17g s\n"
-             "  starting time: %.17g s\n",
-             30. * c.dt1, 1.5 * c.dt1, 40. * c.dt1);
+         vec3(ua, g.unit) + "\n  box sides: " + vec3(us, g.unit) +
+         fmt("\n  random seed: %d\n  source lifetime: %.17g s\n  update interval: %.17g s\n"
+             "  starting time: %.17g s\n  output sources: %s\n",
+             URAND_SEED, URAND_LIFETIME * c.dt1, URAND_INTERVAL * c.dt1, URAND_START * c.dt1,
+             (c.comps & COMP_SRCLOG) ? "true" : "false");
   } else {
     t += "PhotonSourceDistribution:\n  type: SingleStar\n  luminosity: 1.e+49 s^-1\n  position: " +
          vec3(pos, g.unit) + "\n";
   }
-  t += "TaskBasedRadiationHydrodynamicsSimulation:\n  number of iterations: 1\n  number of photons: 100\n"
-       "  random seed: 42\n  do radiation: false\n  number of buffers: 64\n  number of tasks: 4096\n"
-       "  queue size per thread: 1024\n  shared queue size: 1024\n  source copy level: 0\n";
+  t += fmt("TaskBasedRadiationHydrodynamicsSimulation:\n  number of iterations: 1\n  number of photons: 100\n"
+           "  random seed: %d\n  do radiation: false\n  number of buffers: 64\n  number of tasks: 4096\n"
+           "  queue size per thread: 1024\n  shared queue size: 1024\n  source copy level: %d\n",
+           RUN_SEED, (c.comps & COMP_COPIES) ? COPY_LEVEL : 0);
   t += fmt("  total time: %.17g s\n  snapshot time: %.17g s\n", T, T / 100.);
   if (c.comps & COMP_MASK)
     t += "  use mask: true\n";
@@ -235,26 +302,41 @@ static std::string param_text(const Config &c) {
     t += "  turbulent forcing: true\n";
   if (c.comps & COMP_SN)
     t += "  do stellar feedback: true\n";
+  if (c.comps & COMP_GRAV)
+    t += "  external gravity: true\n";
   if (c.comps & COMP_MASK) {
     double cen[3];
     double rmin = 1e300;
     for (int i = 0; i < 3; ++i) {
-      cen[i] = a[i] + 0.55 * g.side[i];
+      cen[i] = a[i] + MASK_CENTRE[i] * g.side[i];
       rmin = std::min(rmin, g.side[i]);
     }
     t += "HydroMask:\n  type: RescaledIC\n  center: " + vec3(cen, g.unit) +
-         fmt("\n  radius: %.17g %s\n  scale factor density: 0.5\n  scale factor velocity: 0.8\n"
-             "  scale factor pressure: 0.5\n  delta t: 0. s\n",
-             0.3 * rmin, g.unit.c_str());
+         fmt("\n  radius: %.17g %s\n  scale factor density: %.17g\n  scale factor velocity: %.17g\n"
+             "  scale factor pressure: %.17g\n  delta t: %.17g s\n",
+             MASK_RADIUS * rmin, g.unit.c_str(), MASK_SCALE_DENSITY, MASK_SCALE_VELOCITY, MASK_SCALE_PRESSURE,
+             MASK_DELTA_T * T);
   }
   if (c.comps & COMP_TURB) {
     // several driving steps per hydro step; acceleration ~ 300 m/s per step
     const double dtf = c.dt1 / 2.5;
     const double acc = 300. / c.dt1;
     t += fmt("TurbulenceForcing:\n  time step: %.17g s\n  forcing power: %.17g m^2 s^-3\n"
-             "  random seed: 17\n  minimum wave number: 1.\n  maximum wave number: 2.\n"
-             "  peak forcing wave number: 1.5\n",
-             dtf, acc * acc * dtf);
+             "  random seed: %d\n  minimum wave number: %.17g\n  maximum wave number: %.17g\n"
+             "  peak forcing wave number: %.17g\n  concentration factor: %.17g\n  starting time: %.17g s\n",
+             dtf, acc * acc * dtf, TURB_SEED, TURB_KMIN, TURB_KMAX, TURB_KPEAK, TURB_CONCENTRATION,
+             TURB_START * dtf);
+  }
+  if (c.comps & COMP_GRAV) {
+    // point mass off every cell centre; ~300 m/s per step at 0.3 box sides
+    double gp[3], smin = 1e300;
+    for (int i = 0; i < 3; ++i) {
+      gp[i] = a[i] + GRAV_POS[i] * g.side[i];
+      smin = std::min(smin, g.side_m(i));
+    }
+    const double r = 0.3 * smin;
+    const double mass = (300. / c.dt1) * r * r / 6.67408e-11;
+    t += "ExternalPotential:\n  type: PointMass\n  position: " + vec3(gp, g.unit) + fmt("\n  mass: %.17g kg\n", mass);
   }
   return t;
 }
@@ -368,13 +450,19 @@ struct LegOut {
   RunResult rr;
   std::string dump, back;
   std::map< int, H5Canon > snaps;
+  std::string srclog; // the source log file as the run left it
+  bool has_srclog = false;
+  double canon_wall = 0.;
   std::string log_tail;
   bool ran_ok() const { return rr.exit_code == 0 && !dump.empty(); }
 };
 
 static const std::vector< std::string > SNAP_SKIP = {"/RuntimePars/@Creation time"};
 
-static LegOut run_leg(const Config &c, const std::string &dir, const std::string &from_dump, int to) {
+/// `from_log`: content of the source log file found in the run directory when
+/// the run is restarted (only used with COMP_SRCLOG)
+static LegOut run_leg(const Config &c, const std::string &dir, const std::string &from_dump, int to,
+                      const std::string &from_log = "") {
   LegOut o;
   rm_rf(dir);
   mkdir_p(dir);
@@ -384,22 +472,44 @@ static LegOut run_leg(const Config &c, const std::string &dir, const std::string
                                      "--number-of-steps", fmt("%d", to)};
   if (!from_dump.empty()) {
     write_file(dir + "/restart.dump", from_dump);
+    if (c.comps & COMP_SRCLOG)
+      write_file(dir + "/" + SOURCE_LOG, from_log);
     argv.push_back("--restart");
     argv.push_back(".");
   }
-  o.rr = run_in(dir, argv, "log.txt", 120.);
+  // the run and the reading of its snapshots are done by a helper process
+  // (c09_util.hpp); without one, by this thread and a forked reader
+  ServedRun sr = g_server.run(dir, argv, "log.txt", 120.);
+  bool canon_ok = sr.canon_ok;
+  std::string canon_failure = "helper could not read the snapshots";
+  if (sr.served) {
+    o.rr = sr.rr;
+    o.canon_wall = sr.canon_wall;
+  } else {
+    o.rr = run_in(dir, argv, "log.txt", 120.);
+    RunResult cr = run_forked([&]() { return canon_main(dir, SNAP_SKIP); }, 120.);
+    o.canon_wall = cr.wall;
+    canon_ok = cr.exit_code == 0;
+    canon_failure = cr.describe();
+  }
   o.dump = verif::read_file(dir + "/restart.dump");
   o.back = verif::read_file(dir + "/restart.0.back");
   if (!from_dump.empty() && o.dump == from_dump && o.rr.exit_code != 0)
     o.dump.clear(); // nothing was written by this leg
-  for (auto &f : list_dir(dir)) {
-    if (f.compare(0, 5, "snap_") == 0 && f.size() > 10 && f.substr(f.size() - 5) == ".hdf5") {
-      int idx = atoi(f.substr(5, f.size() - 10).c_str());
-      H5Canon hc;
-      if (h5_canon(dir + "/" + f, hc, SNAP_SKIP))
-        o.snaps[idx] = hc;
-      else
-        o.snaps[idx].text = "<unreadable>";
+  o.has_srclog = file_exists(dir + "/" + SOURCE_LOG);
+  if (o.has_srclog)
+    o.srclog = verif::read_file(dir + "/" + SOURCE_LOG);
+  // canonical content of the snapshots, as written by the helper
+  {
+    std::vector< std::pair< int, H5Canon > > all;
+    if (canon_ok && canon_read(dir + "/canon.bin", all)) {
+      for (auto &a : all)
+        o.snaps[a.first] = a.second;
+    } else {
+      // never silently without snapshots: every snapshot file counts as unreadable
+      for (auto &f : list_dir(dir))
+        if (snapshot_index(f) >= 0)
+          o.snaps[snapshot_index(f)].text = "<unreadable: " + canon_failure + ">";
     }
   }
   if (o.rr.exit_code != 0)
@@ -476,13 +586,15 @@ static std::string where_in_dump(size_t off, size_t seed_off, size_t size) {
 // ---------------------------------------------------------------------------
 struct Tally {
   uint64_t evaluations = 0, nontrivial = 0, runs = 0, snapshot_compares = 0, legs = 0, chains = 0;
-  double run_wall = 0.;
+  uint64_t srclog_compares = 0, chain_legs_odd = 0, chain_legs_even = 0;
+  double run_wall = 0., canon_wall = 0.;
 };
 
 struct Ctx {
   verif::Result *R;
   std::mutex mtx;
   Tally tally;
+  int min_source_changes = 1000; // over the configurations with a source log
   void add(const Tally &t) {
     std::lock_guard< std::mutex > g(mtx);
     tally.evaluations += t.evaluations;
@@ -492,6 +604,10 @@ struct Ctx {
     tally.legs += t.legs;
     tally.chains += t.chains;
     tally.run_wall += t.run_wall;
+    tally.canon_wall += t.canon_wall;
+    tally.srclog_compares += t.srclog_compares;
+    tally.chain_legs_odd += t.chain_legs_odd;
+    tally.chain_legs_even += t.chain_legs_even;
   }
 };
 
@@ -572,6 +688,24 @@ static bool judge_leg(Ctx &ctx, Tally &tl, const Config &c, const RefData &rd, c
                        replay);
     }
   }
+  // the log file the source list keeps: the restarted run truncates it to the
+  // position stored in the dump and continues
+  if (c.comps & COMP_SRCLOG) {
+    ++tl.srclog_compares;
+    ++tl.evaluations;
+    if (leg.srclog != rd.ref[to].srclog) {
+      good = false;
+      size_t off = 0;
+      while (off < std::min(leg.srclog.size(), rd.ref[to].srclog.size()) && leg.srclog[off] == rd.ref[to].srclog[off])
+        ++off;
+      ctx.R->violation("C09:source-log-differs:" + c.key_suffix(),
+                       fmt("%s: source log after the run restarted at step %d to step %d (history %s) has %zu bytes, "
+                           "after the uninterrupted run %zu bytes, first difference at %zu",
+                           c.label().c_str(), from, to, history.c_str(), leg.srclog.size(),
+                           rd.ref[to].srclog.size(), off),
+                       replay);
+    }
+  }
   // the final snapshot (largest index of the reference) must have been written
   if (!rd.ref[to].snaps.empty()) {
     int last = rd.ref[to].snaps.rbegin()->first;
@@ -590,11 +724,12 @@ static bool make_reference(Ctx &ctx, Tally &tl, const Config &c, const std::stri
   rd.ref.assign(NSTEP + 1, LegOut());
   rd.info.assign(NSTEP + 1, DumpInfo());
   rd.seeds.assign(NSTEP + 1, 0);
-  SeedChain sc(42);
+  SeedChain sc(RUN_SEED);
   for (int j = 1; j <= NSTEP; ++j) {
     rd.ref[j] = run_leg(c, dir + fmt("/ref%d", j), "", j);
     ++tl.runs;
     tl.run_wall += rd.ref[j].rr.wall;
+    tl.canon_wall += rd.ref[j].canon_wall;
     rd.seeds[j] = sc.next();
     if (!rd.ref[j].ran_ok()) {
       ctx.R->violation("C09:uninterrupted-run-failed:" + c.comp_name(),
@@ -607,9 +742,9 @@ static bool make_reference(Ctx &ctx, Tally &tl, const Config &c, const std::stri
     if (!rd.info[j].ok || rd.info[j].num_step != j) {
       ctx.R->violation("C09:dump-layout-unexpected:" + c.key_suffix(),
                        fmt("%s: dump after step %d could not be read as timers|parameters|[mask]|counters|seed...|tail "
-                           "with the seed field holding %" PRId64 " (draw %d of RandomGenerator(42)) and the step "
+                           "with the seed field holding %" PRId64 " (draw %d of RandomGenerator(%d)) and the step "
                            "counter %d (read %" PRId64 ")",
-                           c.label().c_str(), j, rd.seeds[j], j, j, rd.info[j].num_step),
+                           c.label().c_str(), j, rd.seeds[j], j, RUN_SEED, j, rd.info[j].num_step),
                        c.json());
       return false;
     }
@@ -633,6 +768,20 @@ static bool make_reference(Ctx &ctx, Tally &tl, const Config &c, const std::stri
       return false;
     }
   }
+  // the source log of a shorter run is the beginning of the log of a longer one
+  if (c.comps & COMP_SRCLOG)
+    for (int j = 1; j <= NSTEP; ++j) {
+      ++tl.evaluations;
+      const std::string &lj = rd.ref[j].srclog, &ln = rd.ref[NSTEP].srclog;
+      if (!rd.ref[j].has_srclog || lj.empty() || lj.size() > ln.size() || ln.compare(0, lj.size(), lj) != 0) {
+        ctx.R->violation("C09:uninterrupted-run-not-reproducible:" + c.key_suffix(),
+                         fmt("%s: the source log of the run to step %d (%zu bytes, present: %d) is not the beginning "
+                             "of the log of the run to step %d (%zu bytes)",
+                             c.label().c_str(), j, lj.size(), (int)rd.ref[j].has_srclog, NSTEP, ln.size()),
+                         c.json());
+        return false;
+      }
+    }
   rd.ok = true;
   return true;
 }
@@ -666,6 +815,16 @@ static void check_config(Ctx &ctx, Config &c, const std::string &dir, RefData &r
   const int evolving = evolving_steps(rd);
   if (evolving < NSTEP - 1)
     ctx.R->cap(fmt("%s: the state changed in only %d of %d steps", c.label().c_str(), evolving, NSTEP - 1));
+  if (c.comps & COMP_SRCLOG) {
+    // steps after which the log has grown. Recorded, not required: the
+    // simulation only updates the source list inside the radiation step, which a
+    // pure hydrodynamics run does not have (see the assumptions)
+    int changes = 0;
+    for (int j = 2; j <= NSTEP; ++j)
+      changes += rd.ref[j].srclog.size() > rd.ref[j - 1].srclog.size();
+    std::lock_guard< std::mutex > g(ctx.mtx);
+    ctx.min_source_changes = std::min(ctx.min_source_changes, changes);
+  }
 
   // --- every single stop k, continued to every later step j
   if (only_chain < 0) {
@@ -674,9 +833,16 @@ static void check_config(Ctx &ctx, Config &c, const std::string &dir, RefData &r
         continue;
       bool counted = false;
       for (int j = k + 1; j <= NSTEP; ++j) {
-        LegOut leg = run_leg(c, dir + fmt("/s%d_%d", k, j), rd.ref[k].dump, j);
+        if (!c.every_target && only_k < 0 && j != k + 1 && j != NSTEP)
+          continue;
+        // the log file found at the restart: as it was when the dump was written
+        // (even k) or as a run that went on to the last step before it was
+        // killed left it (odd k; the restart has to truncate it)
+        LegOut leg = run_leg(c, dir + fmt("/s%d_%d", k, j), rd.ref[k].dump, j,
+                             (k % 2) ? rd.ref[NSTEP].srclog : rd.ref[k].srclog);
         ++tl.runs;
         tl.run_wall += leg.rr.wall;
+        tl.canon_wall += leg.canon_wall;
         SeedChain sc((int_fast32_t)rd.seeds[k]);
         int64_t want = 0;
         for (int s = k; s < j; ++s)
@@ -715,14 +881,17 @@ static void check_config(Ctx &ctx, Config &c, const std::string &dir, RefData &r
         hist += fmt("@%d", s);
       std::string replay = c.json(fmt(", \"chain\": %ld", mask));
       std::string cur = rd.ref[stops[0]].dump; // first leg = uninterrupted run to the first stop
+      std::string cur_log = rd.ref[stops[0]].srclog;
+      ((stops.size() % 2) ? tl.chain_legs_odd : tl.chain_legs_even)++;
       int64_t cur_seed = rd.seeds[stops[0]];
       int from = stops[0];
       bool alive = true;
       for (size_t i = 0; i < stops.size() && alive; ++i) {
         int to = (i + 1 < stops.size()) ? stops[i + 1] : NSTEP;
-        LegOut leg = run_leg(c, dir + fmt("/c%ld_%d", mask, to), cur, to);
+        LegOut leg = run_leg(c, dir + fmt("/c%ld_%d", mask, to), cur, to, cur_log);
         ++tl.runs;
         tl.run_wall += leg.rr.wall;
+        tl.canon_wall += leg.canon_wall;
         SeedChain sc((int_fast32_t)cur_seed);
         int64_t want = 0;
         for (int s = from; s < to; ++s)
@@ -731,6 +900,7 @@ static void check_config(Ctx &ctx, Config &c, const std::string &dir, RefData &r
         if (!leg.ran_ok())
           break;
         cur = leg.dump;
+        cur_log = leg.srclog;
         cur_seed = want;
         from = to;
       }
@@ -798,6 +968,9 @@ static void classify(Config &c, const std::string &dir) {
 
 // ---------------------------------------------------------------------------
 int main(int argc, char **argv) {
+  if (argc == 3 && strcmp(argv[1], "--canon") == 0)
+    return canon_main(argv[2], SNAP_SKIP); // by hand: canonical content of the snapshots of a run directory
+  g_server.start(16, SNAP_SKIP); // before any thread is started and anything is allocated
   verif::Args A = verif::parse_args(argc, argv);
   verif::Result R(A);
   const char *vb = getenv("VERIF_BUILD");
@@ -822,7 +995,12 @@ int main(int argc, char **argv) {
   std::vector< Geometry > extra_candidates;
   for (double s : {1.1, 0.3, 5.3, 7.7, 1.7, 3.3, 0.9, 4.1, 2.9, 6.1, 3., 10.})
     extra_candidates.push_back({fmt("%gpc-box", s), {s, s, s}, "pc"});
-  std::vector< Layout > layouts = {{{1, 1, 1}}, {{2, 1, 1}}, {{2, 2, 1}}};
+  // layouts: the geometry classes are selected on the first three (1 or 2
+  // subgrids per axis); all_layouts adds one with a different number of
+  // subgrids (1, 2, >= 3) AND of cells per subgrid on every axis, periodic in z
+  std::vector< Layout > layouts = {{{1, 1, 1}, -1}, {{2, 1, 1}, 0}, {{2, 2, 1}, -1}};
+  std::vector< Layout > all_layouts = layouts;
+  all_layouts.push_back({{1, 2, 3}, 2});
 
   auto differs_somewhere = [&](const Geometry &g) {
     int n = 0;
@@ -921,23 +1099,38 @@ int main(int argc, char **argv) {
     return R.finish(A);
   }
 
-  std::vector< unsigned > compsets = {0, COMP_MASK, COMP_TURB, COMP_SN, COMP_URAND};
+  // optional components: every one alone, the source list also with its log
+  // file and subgrid copies; thorough adds combinations
+  const unsigned URAND_FULL = COMP_URAND | COMP_SRCLOG | COMP_COPIES;
+  std::vector< unsigned > compsets = {0, COMP_MASK, COMP_TURB, COMP_SN, COMP_URAND, COMP_GRAV, URAND_FULL};
   if (A.thorough()) {
-    compsets.push_back(COMP_MASK | COMP_TURB);
-    compsets.push_back(COMP_MASK | COMP_SN);
-    compsets.push_back(COMP_TURB | COMP_SN);
-    compsets.push_back(COMP_MASK | COMP_TURB | COMP_SN);
-    compsets.push_back(COMP_MASK | COMP_TURB | COMP_URAND);
+    for (unsigned cs : {(unsigned)COMP_COPIES, (unsigned)(COMP_URAND | COMP_SRCLOG),
+                        (unsigned)(COMP_MASK | COMP_TURB), (unsigned)(COMP_MASK | COMP_SN),
+                        (unsigned)(COMP_TURB | COMP_SN), (unsigned)(COMP_MASK | COMP_TURB | COMP_SN),
+                        (unsigned)(COMP_MASK | COMP_TURB | COMP_URAND), (unsigned)(COMP_MASK | COMP_GRAV),
+                        (unsigned)(COMP_MASK | COMP_TURB | COMP_SN | COMP_GRAV | COMP_COPIES),
+                        (unsigned)(COMP_MASK | COMP_GRAV | URAND_FULL)})
+      compsets.push_back(cs);
   }
 
-  // groups = geometry x layout, processed in parallel; inside a group the
-  // 'none' configuration runs first (its step times parametrise the others)
+  // groups = geometry x layout; the 'none' configuration of a group runs first
+  // (its step times parametrise the others)
   struct Group {
     std::vector< Config > cfgs;
+    bool base_ok = false;
+    double dt1 = 0., t_end_step2 = 0., t_end_step3 = 0.; // of the 'none' configuration
   };
   std::vector< Group > groups;
-  for (auto &g : geos)
-    for (auto &l : layouts) {
+  std::string geos_123;
+  for (auto &g : geos) {
+    for (auto &l : all_layouts) {
+      if (l.nsub[2] == 3)
+        geos_123 += (geos_123.empty() ? "" : ", ") + g.name;
+      bool divisible = true;
+      for (int i = 0; i < 3; ++i)
+        divisible = divisible && g.ncell[i] % l.nsub[i] == 0;
+      if (!divisible)
+        continue;
       Group gr;
       for (unsigned cs : compsets) {
         if ((cs & COMP_TURB) && !g.cubic())
@@ -951,26 +1144,57 @@ int main(int argc, char **argv) {
       }
       groups.push_back(gr);
     }
-  // chain configurations: quick = first group of each class with component
-  // none resp. turbulence; thorough = every configuration
-  {
-    bool have_d = false, have_e = false;
-    for (auto &gr : groups)
-      for (auto &c : gr.cfgs) {
-        if (A.thorough())
-          c.chains = true;
-        else if (c.inv_differs && !have_d && c.comps == 0 && c.lay.nsub[0] == 2 && c.lay.nsub[1] == 2) {
-          c.chains = true;
-          have_d = true;
-        } else if (!c.inv_differs && !have_e && c.comps == COMP_TURB && c.lay.nsub[0] == 2 && c.lay.nsub[1] == 1) {
-          c.chains = true;
-          have_e = true;
-        }
-      }
   }
+  R.set_str("geometries_with_layout_1x2x3", geos_123);
+  // chain configurations (every subset of the stop points, i.e. 2..5 restarts
+  // in a row, odd and even): thorough = every configuration; quick = the first
+  // configuration that fits each of the slots below
+  struct Slot {
+    const char *what;
+    int inv; // 1: n/s != 1/(s/n), 0: equal, -1: any
+    unsigned comps;
+    int nsub[3];
+    bool taken;
+  };
+  std::vector< Slot > slots = {{"none on 2x2x1, inverse cell size differs", 1, 0, {2, 2, 1}, false},
+                               {"turbulence on 2x1x1, inverse cell size exact", 0, COMP_TURB, {2, 1, 1}, false},
+                               {"mask on 1x2x3", -1, COMP_MASK, {1, 2, 3}, false},
+                               {"supernova on 1x1x1", -1, COMP_SN, {1, 1, 1}, false},
+                               {"source list with log and subgrid copies on 2x2x1", -1, URAND_FULL, {2, 2, 1}, false},
+                               {"external gravity on 1x2x3", -1, COMP_GRAV, {1, 2, 3}, false},
+                               {"none on 1x2x3, inverse cell size exact", 0, 0, {1, 2, 3}, false},
+                               {"mask on 2x2x1, inverse cell size differs", 1, COMP_MASK, {2, 2, 1}, false},
+                               {"turbulence on 2x2x1, inverse cell size differs", 1, COMP_TURB, {2, 2, 1}, false},
+                               {"source list without log on 2x1x1", -1, COMP_URAND, {2, 1, 1}, false}};
+  std::string chain_list;
+  for (auto &gr : groups)
+    for (auto &c : gr.cfgs) {
+      if (A.thorough()) {
+        c.chains = true;
+        continue;
+      }
+      for (auto &sl : slots)
+        if (!sl.taken && (sl.inv < 0 || sl.inv == (int)c.inv_differs) && sl.comps == c.comps &&
+            sl.nsub[0] == c.lay.nsub[0] && sl.nsub[1] == c.lay.nsub[1] && sl.nsub[2] == c.lay.nsub[2]) {
+          sl.taken = true;
+          c.chains = true;
+          c.every_target = true;
+          chain_list += (chain_list.empty() ? "" : ", ") + c.label();
+          break;
+        }
+    }
+  if (!A.thorough())
+    for (auto &sl : slots)
+      if (!sl.taken)
+        R.cap(std::string("no configuration for the chain slot: ") + sl.what);
 
   Ctx ctx;
   ctx.R = &R;
+  auto parametrise = [](Config &c, const RefData &base) {
+    c.dt1 = base.info[1].actual;
+    c.t_end_step2 = base.info[1].current;
+    c.t_end_step3 = base.info[2].current;
+  };
 
   if (!A.replay.empty()) {
     std::string txt = verif::read_file(A.replay);
@@ -981,40 +1205,32 @@ int main(int argc, char **argv) {
     std::string stop = verif::replay_field(txt, "stop");
     bool found = false;
     for (auto &gr : groups) {
-      RefData base;
-      for (auto &c : gr.cfgs) {
-        if (c.geo.name != gname || c.lay.name() != lname)
-          continue;
-        if (c.comps != 0 && c.comps != comps)
-          continue;
-        Config cc = c;
-        if (cc.comps != 0 && base.ok) {
-          cc.dt1 = base.info[1].actual;
-          cc.t_end_step2 = base.info[1].current;
-          cc.t_end_step3 = base.info[2].current;
-        }
-        std::string dir = g_base + "/replay_" + fmt("%u", cc.comps);
-        RefData rd;
-        if (cc.comps == comps) {
-          found = true;
-          printf("replaying %s (%s; %s)\n", cc.label().c_str(), cc.inv_class().c_str(), cc.inv_detail.c_str());
-          check_config(ctx, cc, dir, rd, chain.empty() ? -1 : atol(chain.c_str()),
-                       stop.empty() ? -1 : atoi(stop.c_str()));
-          for (int j = 1; j <= NSTEP && rd.ok; ++j)
-            printf("  uninterrupted run, step %d: dump %zu bytes, seed field at %zu = %" PRId64
-                   ", dt %.17g, t %.17g\n",
-                   j, rd.ref[j].dump.size(), rd.info[j].seed_offset, rd.info[j].seed, rd.info[j].actual,
-                   rd.info[j].current);
-          if (g_keep)
-            printf("run directories kept under %s\n", dir.c_str());
-          else
-            printf("(set C09_KEEP=1 to keep the run directories)\n");
-        } else {
-          Tally tl;
-          make_reference(ctx, tl, cc, dir, rd);
-          base = rd;
-        }
+      if (gr.cfgs.empty() || gr.cfgs[0].geo.name != gname || gr.cfgs[0].lay.name() != lname)
+        continue;
+      Config cc = gr.cfgs[0];
+      cc.comps = comps;
+      classify(cc, g_base);
+      if (comps != 0) {
+        Tally tl;
+        RefData base;
+        if (!make_reference(ctx, tl, gr.cfgs[0], g_base + "/replay_base", base))
+          break;
+        parametrise(cc, base);
       }
+      std::string dir = g_base + "/replay_" + fmt("%u", cc.comps);
+      RefData rd;
+      found = true;
+      printf("replaying %s (%s; %s)\n", cc.label().c_str(), cc.inv_class().c_str(), cc.inv_detail.c_str());
+      check_config(ctx, cc, dir, rd, chain.empty() ? -1 : atol(chain.c_str()), stop.empty() ? -1 : atoi(stop.c_str()));
+      for (int j = 1; j <= NSTEP && rd.ok; ++j)
+        printf("  uninterrupted run, step %d: dump %zu bytes, seed field at %zu = %" PRId64 ", dt %.17g, t %.17g\n",
+               j, rd.ref[j].dump.size(), rd.info[j].seed_offset, rd.info[j].seed, rd.info[j].actual,
+               rd.info[j].current);
+      if (g_keep)
+        printf("run directories kept under %s\n", dir.c_str());
+      else
+        printf("(set C09_KEEP=1 to keep the run directories)\n");
+      break;
     }
     if (!found)
       printf("replay: configuration %s/%s/%u not in the enumerated set\n", gname.c_str(), lname.c_str(), comps);
@@ -1022,6 +1238,7 @@ int main(int argc, char **argv) {
     R.nontrivial = ctx.tally.nontrivial;
     for (auto &v : R.violations)
       printf("VIOLATION %s :: %s\n", v.key.c_str(), v.detail.c_str());
+    g_server.stop();
     if (!g_keep) {
       rm_rf(g_base);
       verif::remove_fast_tmpdir(tmp);
@@ -1030,59 +1247,112 @@ int main(int argc, char **argv) {
   }
 
   std::atomic< uint64_t > nconfigs(0), nconf_differs(0), nconf_equal(0);
-  // flatten into independent work items: a group is sequential, so order the
-  // groups and let 16 workers take them
-  parallel_for(groups.size(), 16, [&](size_t gi) {
+  std::mutex cnt_mtx;
+  std::map< std::string, uint64_t > per_component, per_layout;
+  auto run_config = [&](size_t gi, size_t ci) {
     Group &gr = groups[gi];
-    RefData base;
-    for (size_t ci = 0; ci < gr.cfgs.size(); ++ci) {
-      Config &c = gr.cfgs[ci];
-      if (c.comps != 0) {
-        if (!base.ok)
-          continue; // the plain configuration already failed and was reported
-        c.dt1 = base.info[1].actual;
-        c.t_end_step2 = base.info[1].current;
-        c.t_end_step3 = base.info[2].current;
-      }
-      RefData rd;
-      check_config(ctx, c, g_base + fmt("/g%zu_c%zu", gi, ci), rd);
-      if (c.comps == 0)
-        base = rd;
-      ++nconfigs;
-      (c.inv_differs ? nconf_differs : nconf_equal)++;
-      if (rd.ok && (ci == 0 || c.chains))
-        R.sample(c.json(fmt(", \"class\": \"%s\", \"dump_bytes\": %zu, \"dt_step1\": %.6g, \"chains\": %s",
-                            c.inv_class().c_str(), rd.ref[NSTEP].dump.size(), rd.info[1].actual,
-                            c.chains ? "true" : "false")));
+    Config &c = gr.cfgs[ci];
+    RefData rd;
+    check_config(ctx, c, g_base + fmt("/g%zu_c%zu", gi, ci), rd);
+    ++nconfigs;
+    (c.inv_differs ? nconf_differs : nconf_equal)++;
+    {
+      std::lock_guard< std::mutex > g(cnt_mtx);
+      ++per_component[c.comp_name()];
+      ++per_layout[c.lay.name()];
     }
+    if (rd.ok && c.chains)
+      R.sample(c.json(fmt(", \"class\": \"%s\", \"dump_bytes\": %zu, \"dt_step1\": %.6g, \"chains\": true",
+                          c.inv_class().c_str(), rd.ref[NSTEP].dump.size(), rd.info[1].actual)));
+    if (c.comps == 0 && rd.ok) {
+      gr.base_ok = true;
+      gr.dt1 = rd.info[1].actual;
+      gr.t_end_step2 = rd.info[1].current;
+      gr.t_end_step3 = rd.info[2].current;
+    }
+  };
+  // phase 1: the plain configuration of every group; phase 2: all the others,
+  // as independent work items, those with chains first (they take longest)
+  parallel_for(groups.size(), 16, [&](size_t gi) { run_config(gi, 0); });
+  std::vector< std::pair< size_t, size_t > > items;
+  for (int pass = 0; pass < 2; ++pass)
+    for (size_t gi = 0; gi < groups.size(); ++gi)
+      for (size_t ci = 1; ci < groups[gi].cfgs.size(); ++ci)
+        if (groups[gi].base_ok && groups[gi].cfgs[ci].chains == (pass == 0))
+          items.push_back({gi, ci});
+  parallel_for(items.size(), 16, [&](size_t i) {
+    Group &gr = groups[items[i].first];
+    Config &c = gr.cfgs[items[i].second];
+    c.dt1 = gr.dt1;
+    c.t_end_step2 = gr.t_end_step2;
+    c.t_end_step3 = gr.t_end_step3;
+    run_config(items[i].first, items[i].second);
   });
 
   R.evaluations = ctx.tally.evaluations;
   R.nontrivial = ctx.tally.nontrivial;
-  R.rule = "evaluation = one byte comparison of a dump (or one content comparison of a snapshot) written by a "
-           "restarted run against the uninterrupted run; non-trivial case = one (configuration, stop history) "
-           "whose run really continued from a dump (each single stop k and each chain with >= 2 stops counted "
-           "once), in configurations whose state changes at every step";
+  R.rule = "evaluation = one byte comparison of a dump (or one content comparison of a snapshot or of the source "
+           "log) written by a restarted run against the uninterrupted run; non-trivial case = one (configuration, "
+           "stop history) whose run really continued from a dump (each single stop k and each chain with >= 2 stops "
+           "counted once), in configurations whose state changes at every step";
   R.set("configurations", (double)nconfigs.load());
   R.set("configurations_inverse_cell_size_differs", (double)nconf_differs.load());
   R.set("configurations_inverse_cell_size_equal", (double)nconf_equal.load());
   R.set("simulation_runs", (double)ctx.tally.runs);
   R.set("restarted_legs", (double)ctx.tally.legs);
   R.set("chains", (double)ctx.tally.chains);
+  R.set("chains_with_odd_number_of_restarts", (double)ctx.tally.chain_legs_odd);
+  R.set("chains_with_even_number_of_restarts", (double)ctx.tally.chain_legs_even);
   R.set("snapshot_comparisons", (double)ctx.tally.snapshot_compares);
+  R.set("source_log_comparisons", (double)ctx.tally.srclog_compares);
+  R.set("source_list_changes_min_steps", (double)ctx.min_source_changes);
   R.set("simulation_run_wall_sum_s", ctx.tally.run_wall);
+  R.set("snapshot_reader_wall_sum_s", ctx.tally.canon_wall);
+  R.set("run_helper_processes", (double)g_server.size());
   std::string gl;
   for (auto &g : geos)
     gl += (gl.empty() ? "" : ", ") + g.name;
   R.set_str("geometries", gl);
+  {
+    std::string js = "{";
+    for (auto &kv : per_component)
+      js += fmt("%s\"%s\": %llu", js.size() > 1 ? ", " : "", kv.first.c_str(), (unsigned long long)kv.second);
+    R.set_json("configurations_per_component_set", js + "}");
+    js = "{";
+    for (auto &kv : per_layout)
+      js += fmt("%s\"%s\": %llu", js.size() > 1 ? ", " : "", kv.first.c_str(), (unsigned long long)kv.second);
+    R.set_json("configurations_per_layout", js + "}");
+  }
+  R.set_str("chain_configurations", A.thorough() ? "all" : chain_list);
+  R.set_str("single_stop_targets", "every stop k in 1..5 continued to every step j in k+1..6 on every configuration");
+  R.set_str("component_parameters",
+            fmt("mask: centre (%g, %g, %g) x sides, radius %g x shortest side, scale factors density %g / velocity %g "
+                "/ pressure %g, delta t %g x total time; turbulence: k in [%g, %g], peak %g, concentration %g, seed "
+                "%d, generator forwarded %g forcing steps; source list: seed %d, box anchor (%g, %g, %g) sides (%g, "
+                "%g, %g) x box; point mass at (%g, %g, %g) x sides; source copy level %d; photon seed %d",
+                MASK_CENTRE[0], MASK_CENTRE[1], MASK_CENTRE[2], MASK_RADIUS, MASK_SCALE_DENSITY, MASK_SCALE_VELOCITY,
+                MASK_SCALE_PRESSURE, MASK_DELTA_T, TURB_KMIN, TURB_KMAX, TURB_KPEAK, TURB_CONCENTRATION, TURB_SEED,
+                TURB_START, URAND_SEED, URAND_BOX_ANCHOR[0], URAND_BOX_ANCHOR[1], URAND_BOX_ANCHOR[2],
+                URAND_BOX_SIDES[0], URAND_BOX_SIDES[1], URAND_BOX_SIDES[2], GRAV_POS[0], GRAV_POS[1], GRAV_POS[2],
+                COPY_LEVEL, RUN_SEED));
   R.assumptions.push_back("documented exceptions masked: bytes [0,192) of the dump (four Timer objects); the 8-byte "
                           "random_seed field is not masked but compared with the value re-seeding must produce; "
                           "snapshot attribute RuntimePars@Creation time and HDF5 object header time stamps");
   R.assumptions.push_back("BlockSyntaxHydroMask refuses to be dumped (HydroMask::write_restart_file -> cmac_error "
                           "'Restarting not supported for this mask'), so the mask component is RescaledICHydroMask, the "
                           "only mask HydroMaskFactory::restart accepts");
-  R.assumptions.push_back("turbulence forcing is not combined with the anisotropic box (AlveliusTurbulenceForcing "
+  R.assumptions.push_back("turbulence forcing is not combined with the anisotropic boxes (AlveliusTurbulenceForcing "
                           "requires a cubic box)");
+  R.assumptions.push_back("TaskBasedRadiationHydrodynamicsSimulation updates the source list (PhotonSourceDistribution::"
+                          "update) only inside the radiation step; with 'do radiation: false' (the property is about pure "
+                          "hydrodynamics runs, and a restarted radiation step is re-seeded on purpose) the UniformRandom "
+                          "list is therefore dumped and restored but does not move during the run "
+                          "(source_list_changes_min_steps); its evolution after a restore is decided in the component part "
+                          "(update() of the original and of the restored object)");
+  R.assumptions.push_back("a restart happens in a directory that holds the dump and, for the source list with a log "
+                          "file, that log file as it was when the dump was written or as a run that went on to the "
+                          "last step left it; nothing else of the stopped run is present");
+  g_server.stop();
   if (!g_keep) {
     rm_rf(g_base);
     verif::remove_fast_tmpdir(tmp);
